@@ -253,8 +253,19 @@ func TestC11Histories(t *testing.T) {
 			checkAll(t, "after "+how, w, m, trace)
 		}
 		for s := 0; s < steps; s++ {
-			action := rapid.SampledFrom([]string{"append", "append", "append", "append-big", "append-big", "rotate", "close", "purge", "reopen", "crash", "torn", "all"}).Draw(t, "action")
+			action := rapid.SampledFrom([]string{"append", "append", "append", "append-big", "append-burst", "append-burst", "rotate", "close", "purge", "purge", "reopen", "crash", "torn", "all"}).Draw(t, "action")
 			switch action {
+			case "append-burst":
+				// enough large entries in a row that the 1 MiB threshold is crossed inside one
+				// file and a later append rotates on size (not on reopen/close)
+				k := rapid.IntRange(4, 6).Draw(t, "burst")
+				for b := 0; b < k; b++ {
+					size := rapid.IntRange(250_000, 400_000).Draw(t, "burstsize")
+					e := HEntry{ID: nextID, Epoch: uint64(rapid.IntRange(0, 12).Draw(t, "epoch")), Payload: vgen.DetBytes(size, "p", nextID)}
+					nextID++
+					doAppend(e)
+				}
+				trace = append(trace, fmt.Sprintf("burst(%d)", k))
 			case "append", "append-big":
 				size := rapid.IntRange(0, 300).Draw(t, "size")
 				if action == "append-big" {
